@@ -86,18 +86,51 @@ func c04Accept(r *R) {
 	if fn == nil {
 		return
 	}
+	// the validator is consulted at one call through a bound method value, or at
+	// one direct call per direction; everything below is judged per path, in
+	// terms of the validator call that path went through
 	vcs := validatorCall(fn, "ValidatePull", "ValidatePush")
-	if len(vcs) != 1 {
-		r.c.Stuck("C04.1", "anchor:validator-call", r.p.Pos(fn.Pos()), fmt.Sprintf("expected exactly one call through RequestValidator.ValidatePull/ValidatePush in acceptRequest, found %d", len(vcs)))
+	if len(vcs) < 1 || len(vcs) > 2 {
+		r.c.Stuck("C04.1", "anchor:validator-call", r.p.Pos(fn.Pos()), fmt.Sprintf("expected one call through RequestValidator.ValidatePull/ValidatePush (or one per direction) in acceptRequest, found %d", len(vcs)))
 		return
 	}
-	vc := vcs[0]
-	v := r.d.Of(vc)
-	errNil, accepted := "+"+v+"#1==nil", "+"+v+"#0.Accepted"
+	isV := map[ssa.Instruction]*ssa.Call{}
+	for _, c := range vcs {
+		isV[c] = c
+	}
+	paths := r.pathsOf("C04.1", fn)
+	// vOn: the validator call a path went through and its descriptor on that path
+	vOn := func(pt *core.Path) (*ssa.Call, string, int) {
+		var vc *ssa.Call
+		n := 0
+		for _, ev := range pt.Evs {
+			if c, ok := isV[ev.Instr]; ok {
+				vc = c
+				n++
+			}
+		}
+		if vc == nil {
+			return nil, "", 0
+		}
+		return vc, pt.Desc(vc), n
+	}
+	once := true
+	for _, pt := range paths {
+		if _, _, n := vOn(pt); n > 1 {
+			once = false
+		}
+	}
+	r.c.Check(once, "C04.1", "validator-once", r.p.Pos(fn.Pos()), "the validator is consulted at most once per request", "a path of acceptRequest consults the validator more than once")
 	for _, callee := range []string{"(*channels.Channels).CreateNew", "(*channels.Channels).Open", "(*channels.Channels).Accept",
 		"(*impl.manager).recordAcceptedValidationEvents", "(*transportoptions.TransportOptions).ApplyOptions", "(network.DataTransferNetwork).Protect",
 		"(*transportoptions.TransportOptions).SetOptions"} {
-		r.guardedCalls("C04.1", fn, false, callee, 1, errNil, accepted)
+		r.guardedOnPaths("C04.1", fn, paths, callee, 1, func(pt *core.Path, ev core.Ev) []string {
+			vc, v, _ := vOn(pt)
+			if vc == nil {
+				return []string{"+<validator consulted>"}
+			}
+			return []string{"+" + v + "#1==nil", "+" + v + "#0.Accepted"}
+		})
 	}
 	// the validator is the one registered for the request's voucher type, and the
 	// request's selector / voucher decoded without error
@@ -115,7 +148,13 @@ func c04Accept(r *R) {
 			r.c.Bad("C04.1", "validator-registry", r.p.Pos(fn.Pos()), "acceptRequest does not look the validator up in m.validatedTypes")
 		} else {
 			r.argIs("C04.1", vp, 0, r.v(tv)+"#0.Type", "the type the validator is looked up by")
-			r.guarded("C04.1", vc, "validator-call-guards", "+"+r.v(vp)+"#1", "+"+r.v(sel)+"#1==nil", "+"+r.v(tv)+"#1==nil")
+			for i, vc := range vcs {
+				key := "validator-call-guards"
+				if i > 0 {
+					key += fmt.Sprintf("#%d", i+1)
+				}
+				r.guarded("C04.1", vc, key, "+"+r.v(vp)+"#1", "+"+r.v(sel)+"#1==nil", "+"+r.v(tv)+"#1==nil")
+			}
 			// the value asserted to RequestValidator is that lookup's result
 			okSrc := false
 			for _, b := range fn.Blocks {
@@ -127,22 +166,33 @@ func c04Accept(r *R) {
 					}
 				}
 			}
-			r.c.Check(okSrc, "C04.1", "validator-source", r.p.InstrPos(vc), "validator is the registry's processor for the voucher type", "the RequestValidator used is not the processor looked up for the request's voucher type")
+			r.c.Check(okSrc, "C04.1", "validator-source", r.p.InstrPos(vcs[0]), "validator is the registry's processor for the voucher type", "the RequestValidator used is not the processor looked up for the request's voucher type")
 		}
 	}
 	// direction: pull ↔ ValidatePull, and the validator's arguments
-	ps := pathsThrough(r.pathsOf("C04.1", fn), vc)
 	nPull, nPush := 0, 0
-	for i, pt := range ps {
-		callee := pt.Desc(vc.Common().Value)
-		key := fmt.Sprintf("validator-direction/path#%d", i+1)
+	np := 0
+	for _, pt := range paths {
+		vc, _, _ := vOn(pt)
+		if vc == nil {
+			continue
+		}
+		np++
+		method := ""
+		if vc.Common().IsInvoke() {
+			method = vc.Common().Method.Name()
+		} else {
+			method = strings.TrimSuffix(pt.Desc(vc.Common().Value), "$bound")
+			method = method[strings.LastIndex(method, ".")+1:]
+		}
+		key := fmt.Sprintf("validator-direction/path#%d", np)
 		switch {
 		case pt.HasBefore(vc, "+incoming.IsPull()"):
 			nPull++
-			r.c.Check(strings.HasSuffix(callee, ".ValidatePull$bound"), "C04.1", key, r.p.InstrPos(vc), "pull validated by ValidatePull", "a pull request is validated by "+callee)
+			r.c.Check(method == "ValidatePull", "C04.1", key, r.p.InstrPos(vc), "pull validated by ValidatePull", "a pull request is validated by "+method)
 		case pt.HasBefore(vc, "-incoming.IsPull()"):
 			nPush++
-			r.c.Check(strings.HasSuffix(callee, ".ValidatePush$bound"), "C04.1", key, r.p.InstrPos(vc), "push validated by ValidatePush", "a push request is validated by "+callee)
+			r.c.Check(method == "ValidatePush", "C04.1", key, r.p.InstrPos(vc), "push validated by ValidatePush", "a push request is validated by "+method)
 		default:
 			r.c.Bad("C04.1", key, r.p.InstrPos(vc), "validator chosen without testing incoming.IsPull(): "+pt.Describe())
 		}
@@ -150,18 +200,28 @@ func c04Accept(r *R) {
 	r.c.Floor("C04.1", nPull, 1, "pull paths to the validator")
 	r.c.Floor("C04.1", nPush, 1, "push paths to the validator")
 	if tv != nil && sel != nil {
-		for i, w := range []string{"chid", "chid.Initiator", r.v(tv) + "#0.Voucher", "incoming.BaseCid()", r.v(sel) + "#0"} {
-			got := r.d.Of(vc.Common().Args[i])
-			r.c.Check(got == w, "C04.1", fmt.Sprintf("validator-arg%d", i), r.p.InstrPos(vc), "= "+w, fmt.Sprintf("validator argument %d is %s, expected %s", i, got, w))
+		for j, vc := range vcs {
+			for i, w := range []string{"chid", "chid.Initiator", r.v(tv) + "#0.Voucher", "incoming.BaseCid()", r.v(sel) + "#0"} {
+				got := r.d.Of(vc.Common().Args[i])
+				key := fmt.Sprintf("validator-arg%d", i)
+				if j > 0 {
+					key += fmt.Sprintf("#%d", j+1)
+				}
+				r.c.Check(got == w, "C04.1", key, r.p.InstrPos(vc), "= "+w, fmt.Sprintf("validator argument %d is %s, expected %s", i, got, w))
+			}
 		}
 	}
 	// the function's results: the validator's result and error are what is returned on the rejecting paths
-	for i, pt := range r.pathsOf("C04.1", fn) {
-		if pt.End != "return" || !pt.PassesThrough(vc.Block()) {
+	for i, pt := range paths {
+		vc, v, _ := vOn(pt)
+		if pt.End != "return" || vc == nil {
 			continue
 		}
 		if pt.Has("-"+v+"#1==nil") || pt.Has("-"+v+"#0.Accepted") {
-			r.c.Check(pt.RetDesc(0) == v+"#0" && pt.RetDesc(1) == v+"#1", "C04.1", fmt.Sprintf("reject-returns/path#%d", i+1), r.p.Pos(fn.Pos()),
+			e := pt.RetDesc(1)
+			// once the error is known to be absent, returning nil is returning it
+			okE := e == v+"#1" || (e == "nil" && pt.Has("+"+v+"#1==nil"))
+			r.c.Check(pt.RetDesc(0) == v+"#0" && okE, "C04.1", fmt.Sprintf("reject-returns/path#%d", i+1), r.p.Pos(fn.Pos()),
 				"rejecting path returns the validator's result and error", "a rejecting path returns ("+pt.RetDesc(0)+", "+pt.RetDesc(1)+") instead of the validator's outcome")
 		}
 	}
